@@ -46,6 +46,40 @@ func TestWorker(t *testing.T) {
 	case "serve":
 		go watchdog(out)
 		serve(t, out)
+	case "transparency":
+		// hook-transparency self-test: the result under the simulator (both extreme schedules)
+		// equals the result of the same call executed by the real scheduler with the hook unset
+		p := props.Lookup(job.Prop)
+		n, bad := 0, 0
+		for idx := job.Start; idx < job.Start+job.NShards; idx++ {
+			c, ok := p.Gen(job.Seed, job.Tier, idx)
+			if !ok || c.Kind != "parse" {
+				continue
+			}
+			plain := props.PlainParseDump(c)
+			for pi := 0; pi < 2; pi++ {
+				o := props.RunParse(t, c, props.Sched{PolicyIdx: pi}, false)
+				n++
+				if len(o.Parts) == 0 || o.Parts[0] != plain {
+					bad++
+					fmt.Fprintf(out, "MISMATCH idx=%d policy=%d src=%q\n", idx, pi, c.Src)
+				}
+			}
+		}
+		fmt.Fprintf(out, "transparency %s: %d simulated runs compared with the plain run, %d mismatches\n", job.Prop, n, bad)
+	case "hashes":
+		// determinism self-test: print the event-log hash and the result hash of every run of a case range
+		p := props.Lookup(job.Prop)
+		for idx := job.Start; idx < job.Start+job.NShards; idx++ {
+			c, ok := p.Gen(job.Seed, job.Tier, idx)
+			if !ok {
+				continue
+			}
+			for si, s := range p.Plan(job.Seed, job.Tier, idx, c) {
+				o := p.Run(t, c, s, false)
+				fmt.Fprintf(out, "%d %d %016x %016x %d %d\n", idx, si, o.Res.LogHash, gosim.MixStr(0, o.Dump), o.Res.Steps, len(o.Res.Tape))
+			}
+		}
 	default:
 		fmt.Fprintln(os.Stderr, "HARNESS: unknown mode", job.Mode)
 		os.Exit(2)
